@@ -72,4 +72,19 @@ def opEffective (args : List String) : String :=
     | _, _, _, _, _ => "bad-op"
   | _ => "bad-op"
 
+/-- `effectiveflags <noCombine><combine><noKeepCrlf><keepCrlf> <inline> <docDefaults> <fmt> <scrutEnv> [case=<tag>]`:
+as `effective`, with the command-line layer computed from the four output flags (`0`/`1` each) -/
+def opEffectiveFlags (args : List String) : String :=
+  let args := match args with
+    | [f, inl, dd, fmt, se, tag] => if tag.startsWith "case=" then [f, inl, dd, fmt, se] else args
+    | _ => args
+  match args with
+  | [flags, inl, dd, fmt, se] =>
+    let bit (c : Char) : Option Bool := if c = '1' then some true else if c = '0' then some false else none
+    match flags.toList.mapM bit, parseTCC inl, parseTCC dd, parseTCC fmt, parseEnv se with
+    | some [nc, c, nk, k], some inl, some dd, some fmt, some se =>
+      showTCC (effectiveTC (cliLayer nc c nk k) inl { defaults := dd } {} fmt se)
+    | _, _, _, _, _ => "bad-op"
+  | _ => "bad-op"
+
 end Driver
